@@ -14,7 +14,7 @@
    below), the geometric correctness of ray casting (holes_assigned) and the composition
    build_polygon_recovers. *)
 From Coq Require Import ZArith List Bool Permutation Lia.
-From Verif Require Import Geo.Model Geo.JoinProofs Geo.Conserve Geo.Closes Geo.Cut Geo.Orient Geo.Sources Geo.Holes Geo.Annotate.
+From Verif Require Import Geo.Model Geo.JoinProofs Geo.Conserve Geo.Closes Geo.Cut Geo.Orient Geo.Sources Geo.Holes Geo.Annotate C16.Spec C16.RayQ.
 Import ListNotations.
 Open Scope Z_scope.
 
@@ -49,6 +49,13 @@ Theorem C16_chain_line : forall obs cur, chain_rel obs cur ->
   ms_line cur = merge_lines (map (fun ob => seg_line (orient ob)) obs).
 Proof. exact chain_rel_line. Qed.
 Print Assumptions C16_chain_line.
+
+(* 2d. no chain and no line of a chain is empty: the Go code's First()/Last() never index an
+       empty slice on the result, and the model's origin default is never used *)
+Theorem C16_join_lines_nonempty : forall segments chains, join segments = JoinOk chains ->
+  Forall (fun ms => ms <> [] /\ Forall (fun s => seg_line s <> []) ms) chains.
+Proof. exact join_lines_nonempty. Qed.
+Print Assumptions C16_join_lines_nonempty.
 
 (* 3. every chain is closed whenever every point is an end of an even number of segment ends *)
 Theorem C16_join_closes : forall segments chains,
@@ -171,6 +178,14 @@ Theorem C16_contains_outside_bbox : forall outer r,
   (forall p, In p r -> outside_bbox outer p) -> polygon_contains outer r = false.
 Proof. exact contains_outside_bbox. Qed.
 Print Assumptions C16_contains_outside_bbox.
+
+(* 7c. the ray-casting test of the code (cross-multiplied integers in the model) IS the even-odd
+       rule with exact rational arithmetic over the cyclic edges of the ring: the Jordan-curve
+       notion of "inside" for a simple ring and a point off its boundary *)
+Theorem C16_ray_casting_is_even_odd_rule : forall outer p,
+  point_in_ring outer p = spec_inside (llast outer :: outer) p.
+Proof. exact point_in_ring_is_spec. Qed.
+Print Assumptions C16_ray_casting_is_even_odd_rule.
 
 (* build_polygon_recovers.  FULL STATEMENT (not proved): for every valid scene (Spec.scene_ok +
    simple, disjoint, strictly nested rings), every valid cut, reversal, member/node order, both
